@@ -97,7 +97,10 @@ def run(ctx):
             return ev.get("rtype") or ev.get("type") if ev else None
         return None
     n6 = 0
-    for fn in sf_fns:
+    # ... in the slot futex and in the queue functions that compare an expected version with the slot's (seed C01-5: the
+    # version mapping returned a 32-bit value, the try_ paths compared it with the 16-bit slot version)
+    q_fns = fb.find(pred=lambda f: C01.is_queue_fn(f) and f.has_cfg() and not f.lambda_)
+    for fn in list(sf_fns) + list(q_fns):
         for bid, b in fn.blocks.items():
             if "cond" not in b:
                 continue
@@ -410,5 +413,7 @@ SWEEP = ["concurrent/test_bounded_queue.cpp",
 
 # name anchors (validated by tools/rename_sweep.py; a vanished name is exit 2, see core.check_anchor_names)
 ANCHORS = {
+    'set_version_and_wakeup_waiters': ['^babylon::ConcurrentBoundedQueue(<|$)'],
     'wake_all': ['^babylon::Futex(<|$)'],
+    'wakeup_waiters': ['^babylon::ConcurrentBoundedQueue(<|$)'],
 }
